@@ -188,6 +188,10 @@ def gen_case(D):
             t['first'] = D.int(2, 4)        # whole minutes ahead
         if shape == 'first':
             t['count'] = D.choice([None, 1])
+            if D.bool(0.3):
+                # "no pattern" as an empty string (what a form or a CLI with
+                # an empty option sends): accepted, first-time-only as well
+                t['pattern'] = ''
         else:
             t['count'] = D.choice([None, None, 1, 2, 3])
         if any(o['project'] == t['project'] and o['name'] == t['name']
